@@ -1,6 +1,13 @@
 SM = ['smenable', 'smenabled', 'smresume', 'smresumed', 'smack', 'smrequest']
 def I(e, **kw):
     d = dict(name=e, entry='h_' + e, unwind=8, timeout_s=300, mem_gb=6, bound='strings <= 2 arbitrary UTF-16 units, integers full range'); d.update(kw); return d
+def CASES(e, k, **kw):
+    """one instance per combination of the k structural choices (vp_case_bool): presence of optional children, emptiness of gating strings, list lengths"""
+    cs = k if isinstance(k, (list, tuple)) else list(range(1 << k))
+    return [I(e, name='%s_c%d' % (e, c), cdefs={'VP_CASE': c}, bound='structural case %d (of %d); strings <= 2 arbitrary UTF-16 units, integers full range' % (c, len(cs)), **kw) for c in cs]
+NCOND = 11
+FAIL_CASES = [0, 2] + [1 | (t << 1) | (v << 2) for t in (0, 1) for v in range(NCOND)]      # bit0 condition present, bit1 text non-empty, bits2.. condition value
+FAIL2_CASES = [t | (v << 1) for t in (0, 1) for v in range(NCOND)]
 SPEC = dict(
     property='C01',
     groups=[
@@ -8,9 +15,11 @@ SPEC = dict(
              instances=[I(e) for e in SM]),
         dict(name='utils', harness='h_utils.cpp', tus=['src/base/QXmppUtils.cpp'], models=['qt_core.c', 'qt_dom.c'],
              instances=[I(e, bound='whole value range of the integer type') for e in ['int_u8', 'int_i8', 'int_u16', 'int_i16', 'int_u32', 'int_i32', 'int_u64', 'int_i64', 'int_range', 'bool']]),
-        dict(name='sasl', harness='h_sasl.cpp', tus=['src/base/QXmppSasl.cpp', 'src/base/QXmppStreamManagement.cpp', 'src/base/QXmppUtils.cpp'], models=['qt_core.c', 'qt_list.c', 'qt_dom.c'],
-             instances=[I(e, unwind=10) for e in ['sasl_auth', 'sasl_challenge', 'sasl_response', 'sasl_success', 'sasl_failure', 'bind2_feature', 'bind2_request', 'bind2_bound', 'fast_feature',
-                                                  'fast_token_request', 'fast_request', 'sasl2_challenge', 'sasl2_response', 'sasl2_failure', 'sasl2_continue', 'sasl2_abort', 'sasl2_success', 'sasl2_authenticate']]),
+        dict(name='sasl', harness='h_sasl.cpp', tus=['src/base/QXmppSasl.cpp', 'src/base/QXmppStreamManagement.cpp', 'src/base/QXmppUtils.cpp', 'src/base/QXmppStanza.cpp'], models=['qt_core.c', 'qt_list.c', 'qt_dom.c'],
+             instances=[I(e, unwind=10) for e in ['sasl_auth', 'sasl_challenge', 'sasl_response', 'sasl_success', 'fast_token_request', 'fast_request', 'sasl2_challenge', 'sasl2_response']]
+                       + CASES('sasl_failure', FAIL_CASES, unwind=10) + CASES('bind2_feature', 2, unwind=10) + CASES('bind2_request', 4, unwind=10) + CASES('bind2_bound', 2, unwind=10)
+                       + CASES('fast_feature', 2, unwind=10) + CASES('sasl2_failure', FAIL2_CASES, unwind=10) + CASES('sasl2_continue', 3, unwind=10) + CASES('sasl2_abort', 1, unwind=10)
+                       + CASES('sasl2_success', 5, unwind=10) + CASES('sasl2_authenticate', 7, unwind=10, tiers=('thorough',))),
     ],
     bounds=[], assumptions=[], outside=[],
 )
